@@ -239,7 +239,7 @@ def configs(tier, seed):
                                 dict(kind='prox', factory=name, sk=sk, g=g, sigma=sg)))
     for name in sorted(DERIVED):
         out.append(('prox/%s' % name, dict(kind='derived', factory=name)))
-    for cid, rn, sk in funcs.instances(tier):
+    for cid, rn, sk in funcs.instances(tier, harness='C10'):
         out.append(('fprox/' + cid, dict(kind='fprox', recipe=rn, sk=sk)))
         if tier == 'thorough' and sk in ('rn', 'arn', 'discr', 'pspace') and funcs.supports_dim(rn, sk, 3):
             out.append(('fprox/%s/n=3' % cid, dict(kind='fprox', recipe=rn, sk=sk, n=3)))
